@@ -1174,8 +1174,7 @@ struct array : static_array<T, D, Alloc> {
 		auto extensions_ = this->extensions();
 		arxiv& ArTraits::make_nvp("extensions", extensions_); // don't try `using ArTraits::make_nvp`, make_nvp is a static member
 		if(this->extensions() != extensions_) {
-			clear();
-			this->reextent(extensions_);
+			std::move(*this).reextent(extensions_);  // discards the old elements: nothing to transfer, no views of a null block
 		}
 		static_::serialize(arxiv, version);
 	}
